@@ -115,6 +115,7 @@ type env struct {
 	maxEmits    int // reference runs: Goexit after this many emits (0 = unlimited)
 	pcallFn     *lua.LFunction
 	xpcallFn    *lua.LFunction
+	loadFn      *lua.LFunction // load runs its reader under PCall (f7b87fa): it catches like pcall
 	wrapped     map[*lua.LState]bool
 	mustBeFresh bool // setup "bare*": no call may have been made on the state before the script
 	notFresh    bool
@@ -165,6 +166,7 @@ func newEnvS(withCtx bool, k int, customReason string, removeCtx bool, mode, set
 	e.mustBeFresh = bare && !strings.Contains(setup, "late")
 	e.pcallFn, _ = L.GetGlobal("pcall").(*lua.LFunction)
 	e.xpcallFn, _ = L.GetGlobal("xpcall").(*lua.LFunction)
+	e.loadFn, _ = L.GetGlobal("load").(*lua.LFunction)
 	L.SetGlobal("emit", L.NewFunction(func(L *lua.LState) int {
 		if e.maxEmits > 0 && len(e.emits) >= e.maxEmits {
 			runtime.Goexit()
@@ -359,7 +361,7 @@ func (e *env) snapshot(th *lua.LState) []string {
 				out = append(out, "G")
 			case child != nil && i == len(frames)-1:
 				out = append(out, "C"+tf(lua.VerifCtxWrapped(child))+tf(polls(child)))
-			case f.Fn == e.pcallFn:
+			case f.Fn == e.pcallFn, e.loadFn != nil && f.Fn == e.loadFn:
 				out = append(out, "P")
 			case f.Fn == e.xpcallFn:
 				h := "g"
